@@ -59,7 +59,11 @@ func carriesStorage(t types.Type, depth int) bool {
 	if t == nil || depth > 6 {
 		return false
 	}
-	switch k, _ := classify(t); k {
+	k, ok := safeClassify(t)
+	if !ok {
+		return true // a type the engine has no model for: assume it can share
+	}
+	switch k {
 	case kSlice, kMap:
 		return true
 	case kObj, kRef:
@@ -114,7 +118,7 @@ func (x *Exec) aliasDerive(e ast.Expr) []types.Object {
 	case *ast.SelectorExpr:
 		if sel := info.Selections[n]; sel != nil {
 			out := derive(n.X)
-			if k, _ := classify(typeOf(n.X)); k == kRef {
+			if k, ok := safeClassify(typeOf(n.X)); ok && k == kRef {
 				out = append(out, x.c.alias.heapObj) // the storage of a heap object's field
 			}
 			return out
@@ -149,7 +153,7 @@ func (x *Exec) aliasDerive(e ast.Expr) []types.Object {
 	case *ast.CallExpr:
 		if tv, ok := info.Types[n.Fun]; ok && tv.IsType() && len(n.Args) == 1 {
 			// conversion: between slice types it shares, from a string it copies
-			if k, _ := classify(typeOf(n.Args[0])); k == kStr {
+			if k, ok := safeClassify(typeOf(n.Args[0])); ok && k == kStr {
 				return nil
 			}
 			return derive(n.Args[0])
@@ -199,6 +203,14 @@ func (x *Exec) aliasAnalyse(body ast.Node) {
 		return
 	}
 	a.done[body] = true
+	defer func() {
+		if r := recover(); r != nil {
+			if _, isU := r.(unsupportedErr); isU {
+				panic(r)
+			}
+			panic(unsupported("may-share analysis cannot interpret this body: %v", r))
+		}
+	}()
 	var rhsOf ast.Expr
 	link := func(lhs ast.Expr, from []types.Object) {
 		if !carriesStorage(x.aliasTypeOf(lhs), 0) {
@@ -342,7 +354,12 @@ func storageComponents(t types.Type) map[string]bool {
 		if t == nil || depth > 6 {
 			return
 		}
-		switch k, _ := classify(t); k {
+		k, ok := safeClassify(t)
+		if !ok {
+			out["*"] = true // a type the engine has no model for: may share with anything
+			return
+		}
+		switch k {
 		case kObj, kRef:
 			return
 		}
@@ -370,10 +387,27 @@ func storageComponents(t types.Type) map[string]bool {
 }
 
 func intersects(a, b map[string]bool) bool {
+	if a["*"] || b["*"] {
+		return true
+	}
 	for k := range a {
 		if b[k] {
 			return true
 		}
 	}
 	return false
+}
+
+// safeClassify: classify, for types the engine may have no model for (it panics on those).
+func safeClassify(t types.Type) (k tyKind, ok bool) {
+	defer func() {
+		if r := recover(); r != nil {
+			ok = false
+		}
+	}()
+	if t == nil {
+		return 0, false
+	}
+	k, _ = classify(t)
+	return k, true
 }
